@@ -132,6 +132,12 @@ def run(chk):
         'PRINT "total"\nGOSUB addit\nEND\nPRINT "not reached"\naddit:\nPRINT "in"\nRETURN\n',
         'GOTO 10\nPRINT "skipped"; "also"\n10 PRINT "shown"\nEND\nx$ = "dead"\nPRINT x$\n',
         'CALL p\nEND\nPRINT "tail"\nSUB p\n  PRINT "p"\n  EXIT SUB\n  PRINT "after exit"\nEND SUB\n',
+        # handlers that never resume (no RESUME in the text: judged), entered while the failed statement had partial results on
+        # the stack: what the machine keeps for resuming (it needs the debug section) must not show
+        'ON ERROR GOTO h\nGOSUB s\nPRINT "back"\nEND\ns: x = 1 + (1 \\ z%)\nPRINT "not reached"\nRETURN\nh: PRINT "h"\nRETURN\n',
+        'ON ERROR GOTO h\nPRINT 1; 2 \\ z%; 3\nPRINT "after"\nEND\nh: PRINT "h"; ERR\nGOTO fin\nfin: PRINT "fin"\n',
+        'ON ERROR GOTO h\nCALL p(5 + f%(1))\nPRINT "after"\nEND\nh: PRINT "h"; ERR\nEND\nSUB p (a%)\n  PRINT a%\nEND SUB\n'
+        'FUNCTION f% (a%)\n  f% = 7 + (a% \\ z%)\nEND FUNCTION\n',
     ]
     special += chain_programs()
     nprog += len(special)
